@@ -32,6 +32,9 @@ STAGES = {
             ('send-2x2-b2-render', 'Session', cfg(RENDERKINDS='{"failMid"}', CAPSETS='{%s}' % ALLCAPS,
                                                    CLASSES='{"t4", "p5", "drop", "x3"}')),
             ('send-2x2-b1-transport', 'Session', cfg(BUDGET='1', CAPSETS='{{}}', CLASSES='{"wfail", "cwfail", "drop"}')),
+            # body producers that can be read once (streams); the caller cancels the context of DialAndSend while a message is half-way through DATA
+            ('send-2x1-b1-one-shot-producers', 'Session', cfg(MAXR='1', BUDGET='1', CAPSETS='{{}}', CLASSES='{"p5"}', VARIANTS='{"oneshot"}')),
+            ('dialandsend-2x1-b1-cancel-mid-data', 'Session', cfg(OP='"DialAndSend"', MAXR='1', BUDGET='1', CAPSETS='{{}}', CLASSES='{"p5"}', VARIANTS='{"ctxcancelmid"}')),
             # every positive reply of the server - the acknowledgement of the end of data too - is a multi-line reply
             ('send-2x1-b1-multiline-ok', 'Session', cfg(MAXR='1', BUDGET='1', CAPSETS='{{}}', CLASSES='{"p5", "t4"}', VARIANTS='{"multiok"}')),
             ('send-2x1-b2-transport', 'Session', cfg(MAXR='1', BUDGET='2', CAPSETS='{{}}', CLASSES='{"wfail", "cwfail", "p5"}')),
